@@ -27,8 +27,18 @@ RULE = ('abstract FRU images (every subset of internal/chassis/board/product/mul
         'length byte and a sample of the other positions - through the FRU device; a covered byte must be rejected; an '
         'info-area length byte (quick: 0, 1, FFh, the neighbours of the old value and the one value for which the truncated '
         'remainder of the image / of the device storage sums to zero; thorough: all 255) '
-        'may be accepted only when the spec says the DECLARED length is >= 1 unit, lies inside the data and its span '
-        'sums to zero (Spec.checksumsOk).  '
+        'may be accepted only when the altered bytes satisfy EVERY check of the format (Spec.imageOk: declared length >= 1 '
+        'unit, inside the data, zero sum over the declared span; every field and the C1h marker inside the declared '
+        'length; no area starting inside the span of another one); an altered covered byte that ends in anything but '
+        'DecodingError (or the device\'s completion code) is a violation too.  Steered length bytes: for every info area '
+        'of sampled images EVERY length value 1..255 (quick: of 4 images; thorough: of 40; of 12 / 20 more images the '
+        'values whose span ends inside the image or just behind it), the image first STEERED - '
+        'still an output of the spec encoder - so that the new span sums to zero wherever that is possible: a shortened '
+        'span through the area\'s own chassis type / language code byte, a lengthened one through the type / language '
+        'byte of the info area or a data byte of the multi-record in which the new span ends, on the device also '
+        'through the first unused byte behind the image (span ending in the device\'s filler); each as bytes, array, '
+        'file and through the device; signatures C15:altered-accepted:info-area-length-shortened:fields-outside-area, '
+        '...-lengthened:areas-overlap[:device], C15:altered-raises:<exception>[:device].  '
         'Sub-parser stream: TypeLengthString, each info-area class, the multi-record area and the header on mutated '
         'and random bytes (tie only).  Device histories: ONE long-lived Ipmi object (real codec, byte-level FRU device '
         'with several FRU ids): image A read (inventory or header), then the contents replaced by image B with another '
@@ -54,15 +64,28 @@ ASSUMPTIONS = [
     'offsets) and Spec.checksumsOk has nothing to check for it; a multi-record whose length byte reaches behind the end '
     'of the data has its body checksum taken over the bytes that exist (likewise unreachable: the length byte is '
     'covered by the record header checksum)',
-    'an info-area length byte altered to another value b >= 1 whose span of 8*b bytes lies inside the data and sums '
-    'to zero is accepted by every reader of this format (8-bit checksum whose extent the byte itself defines: theorem '
-    'length_byte_limit); counted as altered:length-byte-accepted(format limit), not a violation',
+    'an info-area length byte altered to another value b >= 1 is accepted by every reader of this format when the '
+    'altered bytes are themselves a FRU image: span of 8*b bytes inside the data and zero-sum, every field and the C1h '
+    'marker of the area inside the new span (only unused space was cut off), no other area starting inside it (a longer '
+    'span reaches only into bytes of no area: filler behind the last area) - Spec.imageOk; theorems '
+    'alteration_rejected_length_byte, device_alteration_length_byte, length_byte_limit; counted as '
+    'altered:length-byte-accepted(format limit), not a violation.  Given exactly the image (bytes / array / file) a '
+    'LENGTHENED length is never accepted, and an area without a whole unused unit admits no accepted alteration at all',
     'the device path (Ipmi.get_fru_inventory) is judged against the spec view and compared with the Lean model of the '
     'device path (Model/FruDevice.lean: read_fru_data by its contract - the stored bytes or the completion code C9h); '
     'its transfer loop is C10; the byte-level device of the history stream (FruStore in c15.py) is written '
     'from IPMI v2.0 34.1-34.3 and is trusted; what a faulted write must raise is not judged here',
     'three characters of 6-bit text occupy the same 3 bytes as four (the fourth being a space): the view pads, '
     'a limit of the packed format',
+    'the internal use area has no length of its own in the storage format: the layout condition (Spec.layoutOk) knows '
+    'only where it starts (no other area\'s span may contain that offset); the extent of the multi-record area is its '
+    'chain of records up to the end-of-list flag.  On the device path the theorems state the layout and the confinement '
+    'of the fields for the info areas (device_accept_implies_fields_and_layout); that the multi-record chain does not '
+    'run over a later area is checked by the code and the model there as well but not stated as a theorem',
+    'two areas announced at the same offset, or a multi-record chain that runs over another area, cannot be produced by '
+    'a single-byte alteration of an encoder image (the offsets and the record lengths are covered by checksums of fixed '
+    'extent): these parts of the layout check are tied by the translator (fail closed on any other form of '
+    '_check_area_layout) and by the model, not exercised by the generators',
 ]
 TRUSTED = ['harness/translate/fru.py', 'harness/props/c15.py']
 
@@ -74,6 +97,8 @@ SIG_SIX = 'C15:_unpack6bitascii:partial-group'
 SIG_OEM = 'C15:create_from_record_id:oem-c0-record-decoded-as-picmg'
 SIG_LEN0 = 'C15:altered-accepted:info-area-length-zero'
 SIG_LENX = 'C15:altered-accepted:info-area-length-beyond-data'
+SIG_SHORT = 'C15:altered-accepted:info-area-length-shortened:fields-outside-area'
+SIG_LONG = 'C15:altered-accepted:info-area-length-lengthened:areas-overlap'
 
 _FLAGS = None     # probe result of the tree under test (set by _run / replay)
 
@@ -119,13 +144,41 @@ def _probe():
     rec = bytes(hdr + [(-sum(hdr)) % 256] + body)
     r = fru.FruDataMultiRecord.create_from_record_id(rec)
     type_only = isinstance(r, fru.FruPicmgRecord)
-    return bcd_only, six_strict, area_lax, dev_lax, type_only
+    # board area of 16 bytes (01 02 00 | date 9e 9d c0 | c2 "AB" | c0 x 4 | c1 | 00 | fc) with the length byte set to 01:
+    # the first 8 bytes sum to zero, the manufacturer field, four more fields and the C1h marker lie behind them
+    try:
+        fru.InventoryBoardInfoArea(bytes(bytearray.fromhex('0101009e9dc0c24142c0c0c0c0c100fc')))
+        fields_lax = True
+    except DecodingError:
+        fields_lax = False
+    # board area (offset 8, 16 bytes) followed by a product area (offset 24); board length byte 02 -> 03: its 24 bytes
+    # sum to zero and run over the product area
+    image = bytes(bytearray.fromhex('01000001030000fb' '010300c09cc0c24142c0c0c0c0c100db'
+                                    '010300c441434d66c25831c0c0c0c0c0c100000000000035'))
+    try:
+        fru.FruInventory(image)
+        overlap_lax = True
+    except DecodingError:
+        overlap_lax = False
+    try:
+        make_device(image).get_fru_inventory(fru_id=0)
+        dev_overlap_lax = True
+    except DecodingError:
+        dev_overlap_lax = False
+    return bcd_only, six_strict, area_lax, dev_lax, type_only, fields_lax, overlap_lax, dev_overlap_lax
 
 
 def translate(ctx):
     global _consts
     _consts = tfru.generate()
-    bcd_only, six_strict, area_lax, dev_lax, type_only = _probe()
+    bcd_only, six_strict, area_lax, dev_lax, type_only, fields_lax, overlap_lax, dev_overlap_lax = _probe()
+    if (_consts['fieldsForm'] == 'lax') != fields_lax:
+        raise TieBroken('the info-area classes have the %s form but a board area whose fields lie behind its declared '
+                        'length is %s' % (_consts['fieldsForm'], 'accepted' if fields_lax else 'rejected'))
+    for key, lax, what in (('layoutForm', overlap_lax, 'FruInventory._from_data'), ('devLayoutForm', dev_overlap_lax, 'Fru.get_fru_inventory')):
+        if (_consts[key] == 'none') != lax:
+            raise TieBroken('%s has the layout form %r but an image with overlapping areas is %s' % (
+                what, _consts[key], 'accepted' if lax else 'rejected'))
     for key, lax, what in (('areaLenForm', area_lax, 'CommonInfoArea._from_data'), ('devLenForm', dev_lax, 'Fru._read_fru_area')):
         if (_consts[key] == 'lax') != lax:
             raise TieBroken('%s has the %s form but an info area with length byte 0 is %s' % (
@@ -583,9 +636,10 @@ def make_device(image, size=None):
     return Dev()
 
 
-def real_device(data):
+def real_device(data, fill=None):
+    """`fill`: the bytes the device stores behind the image (None: FFh up to the next 256-byte boundary + 256)"""
     try:
-        dev = make_device(data)
+        dev = make_device(data) if fill is None else make_device(bytes(data) + bytes(fill), size=len(data) + len(fill))
         inv = dev.get_fru_inventory(fru_id=0)
         return 'ok ' + canon_areas(inv)
     except Exception as e:  # noqa
@@ -995,29 +1049,50 @@ def area_of_length_byte(view, pos):
     return pos - 1
 
 
-def judge_altered(ctx, drv, hexs, view, cov, pos, newb, kind, real):
-    """property: an image with an altered covered byte is never accepted"""
+def judge_altered(ctx, drv, hexs, view, cov, pos, newb, kind, real, fill=None):
+    """property: an image with an altered covered byte is never accepted (and the reader says so with DecodingError;
+    the device may answer a read behind its storage with a completion code)"""
     c = cov[pos]
-    if not real.startswith('ok '):
-        ctx.count('altered:rejected:' + real)
-        return
     data = bytearray(lean.unhex(hexs))
+    old = data[pos]
     data[pos] = newb
     case = {'op': 'altered', 'hex': hexs, 'pos': pos, 'new': newb, 'kind': kind, 'cov': c}
+    if fill is not None:
+        case['fill'] = _hex(fill)
     how = {'b': 'bytes', 'a': "array('B')", 'l': 'list', 'f': 'file', 'dev': 'FRU device'}[kind]
+    if not real.startswith('ok '):
+        ctx.count('altered:rejected:' + real)
+        if c != '0' and real.startswith('py:') and real != 'py:CompletionCodeError':
+            ctx.violate('C15:altered-raises:%s%s' % (real[3:], ':device' if kind == 'dev' else ''),
+                        'an image whose %s byte at offset %d (covered by a zero-sum checksum%s) was altered %02x -> %02x is '
+                        'not rejected with DecodingError: %s (%s)' % (
+                            region_of(view, pos), pos, ', the info-area length byte' if c == '2' else '', old, newb, real[3:], how),
+                        case, expected='DecodingError', observed=real)
+        return
     if c == '1':
         ctx.violate('C15:altered-accepted:%s' % region_of(view, pos),
                     'an image whose %s byte at offset %d (covered by a zero-sum checksum) was altered is accepted (%s)' % (
                         region_of(view, pos), pos, how), case, expected='rejected', observed=real[:200])
     elif c == '2':
-        # the spec acceptance condition on the bytes the parser was given (device: the stored bytes):
-        # declared length >= 1 unit, inside the data, zero sum over exactly the declared span
-        given = device_store(data) if kind == 'dev' else bytes(data)
-        if drv is not None and drv.ask('sums ' + _hex(given)) == '1':
-            ctx.count('altered:length-byte-accepted(declared span inside the data and zero-sum: format limit)')
+        # every check the format allows, on the bytes the parser was given (device: the stored bytes): declared length
+        # >= 1 unit, inside the data, zero sum over exactly the declared span; fields and C1h marker inside the declared
+        # length; no area starting inside the span of another one
+        given = (bytes(data) + bytes(fill) if fill is not None else device_store(data)) if kind == 'dev' else bytes(data)
+        verdict = drv.ask('wf ' + _hex(given)) if drv is not None else 'sums'
+        if verdict == 'ok':
+            ctx.count('altered:length-byte-accepted(the altered bytes are a FRU image - %s: format limit)' % (
+                'only unused space cut off' if newb < old else 'span lengthened into bytes of no area'))
             return
         off = area_of_length_byte(view, pos)
-        if newb == 0 and kind == 'dev':
+        dev = ':device' if kind == 'dev' else ''
+        if verdict == 'fields':
+            sig, why = SIG_SHORT + dev, 'from %d to %d units: the %d bytes of the new span sum to zero, but fields / the C1h ' \
+                'end marker of the area lie BEHIND the new length - the values come from outside the checksummed span' % (
+                    old, newb, 8 * newb)
+        elif verdict == 'layout':
+            sig, why = SIG_LONG + dev, 'from %d to %d units: the %d bytes of the new span sum to zero, but the span runs over the ' \
+                'start of another area the common header announces' % (old, newb, 8 * newb)
+        elif newb == 0 and kind == 'dev':
             sig, why = SIG_LEN0 + ':device', 'to 0: _read_fru_area reads no byte at all and the area object has no attributes'
         elif newb == 0:
             sig, why = SIG_LEN0, 'to 0: the checksum is taken over no byte at all'
@@ -1041,8 +1116,9 @@ def _vv(flags):
 
 
 def _variant_name(flags):
-    return {(True,) * 5: 'asShipped', (False,) * 5: 'intended',
-            (False, False, True, True, True): 'afterC15_1'}.get(tuple(flags), 'mixed')
+    return {(True,) * 8: 'asShipped', (False,) * 8: 'intended',
+            (False, False, True, True, True, True, True, True): 'afterC15_1',
+            (False,) * 5 + (True,) * 3: 'afterC15_3'}.get(tuple(flags), 'mixed')
 
 
 def _alter_values(rng, old, tier, extra=()):
@@ -1059,6 +1135,171 @@ def _alter_values(rng, old, tier, extra=()):
     return sorted(vals)
 
 
+# ---- steered length bytes ---------------------------------------------------------------------------------------
+
+INFO_AREAS = (('chassis', 2, 'type'), ('board', 3, 'lang'), ('product', 4, 'lang'))
+
+
+def _rec_data_len(r):
+    return len(r[2]) if r[0] == 'g' else 5 + len(r[3]) if r[0] == 'p' else 7 + len(r[3])
+
+
+def _layout(img, data, view):
+    """[(name, start, end)] of the checksummed areas of an encoded image, in storage order"""
+    h = [int(x) for x in view.split(' ')[0][2:].split(',')]
+    out = []
+    for name, k, _ in INFO_AREAS:
+        if h[k]:
+            out.append((name, h[k], h[k] + 8 * data[h[k] + 1]))
+    if h[5]:
+        out.append(('multirecord', h[5], h[5] + sum(5 + _rec_data_len(r) for r in img['records'])))
+    return sorted(out, key=lambda x: x[1])
+
+
+def _steer_target(img, data, view, name, newlen):
+    """Which abstract byte can make the span [off, off + 8*newlen) of info area `name` - with its length byte set to
+    `newlen` - sum to zero while the image stays an encoder output?  -> (position, setter) | None.
+    The byte must lie inside the new span while the checksum byte that compensates it lies outside (info area: its
+    type / language byte), or compensate with a net effect inside (multi-record data byte: record checksum -d, header
+    checksum +d, both in front of it)."""
+    lay = _layout(img, data, view)
+    off, end = [(s0, e0) for n, s0, e0 in lay if n == name][0]
+    e = off + 8 * newlen
+    if e > len(data):
+        return None
+    if e < end:                       # shortened: the area's own type / language byte (offset 2), checksum outside
+        key = dict((n, f) for n, _, f in INFO_AREAS)[name]
+        return off + 2, (lambda im, v: im[name].__setitem__(key, v))
+    for n, s0, e0 in lay:
+        if s0 < e <= e0 and s0 >= end:
+            if n != 'multirecord':
+                if e == e0:
+                    return None       # the span covers this area completely: it contributes 0 whatever it holds
+                key = dict((x, f) for x, _, f in INFO_AREAS)[n]
+                return s0 + 2, (lambda im, v, n=n, key=key: im[n].__setitem__(key, v))
+            pos = s0
+            for idx, r in enumerate(img['records']):
+                p = pos + 5
+                if r[0] == 'g' and r[1] != 0xc0 and r[2] and p < e:
+                    return p, (lambda im, v, idx=idx: im['records'][idx][2].__setitem__(0, v))
+                if r[0] == 'p' and r[3] and p + 5 < e:
+                    return p + 5, (lambda im, v, idx=idx: im['records'][idx][3].__setitem__(0, v))
+                pos += 5 + _rec_data_len(r)
+            return None
+    return None
+
+
+def _copy_img(img):
+    import copy
+    return copy.deepcopy(img)
+
+
+def steered_lengths(ctx, drv, vv, rng, valid):
+    """every info area x every length value 1..255, the image steered so that the new span sums to zero where the
+    format allows that; bytes, array, file, device (device: also through the first filler byte behind the image)"""
+    quick = ctx.tier == 'quick'
+    pool = [v for v in valid if 24 <= len(v[2]) // 2 <= (160 if quick else 400)
+            and any(v[1].get(n) for n, _, _ in INFO_AREAS) and v[0] not in ('min-bcd', 'min-six1', 'min-six2', 'min-six4')]
+    # prefer images with several areas (a lengthened span needs something to run into) and with unused space
+    pool.sort(key=lambda v: -(sum(1 for n, _, _ in INFO_AREAS if v[1].get(n)) + (1 if v[1].get('records') else 0)))
+    head = pool[:60]
+    rng.shuffle(head)
+    n_full = 4 if quick else 40       # every value 1..255; the images after these: the values whose span ends inside
+    picked = head[:n_full + (12 if quick else 20)]      # the image or just behind it
+    n_steered = 0
+    for i_img, (label, img, hexs, cov, view) in enumerate(picked):
+        data = lean.unhex(hexs)
+        # 1. steer: one re-encoded image per (area, length value) whose span ends inside the image
+        plans = []        # (name, pos of length byte, newlen, image tuple (hexs, cov, view), steered?)
+        enc_lines, enc_meta = [], []
+        for name, k, _ in INFO_AREAS:
+            if not img.get(name):
+                continue
+            off = int(view.split(' ')[0][2:].split(',')[k])
+            old = data[off + 1]
+            for newlen in range(1, 256):
+                if newlen == old or (i_img >= n_full and off + 8 * newlen > len(data) + 16):
+                    continue
+                tgt = _steer_target(img, data, view, name, newlen)
+                if tgt is None:
+                    plans.append([name, off + 1, newlen, (hexs, cov, view), False])
+                    continue
+                p, setter = tgt
+                span = bytearray(data[off:off + 8 * newlen])
+                span[1] = newlen
+                want = (data[p] - sum(span)) % 256
+                im2 = _copy_img(img)
+                setter(im2, want)
+                enc_lines.append(img_tokens(im2))
+                enc_meta.append(len(plans))
+                plans.append([name, off + 1, newlen, None, True])
+        for j, e in zip(enc_meta, drv.ask_many(enc_lines)):
+            pl = plans[j]
+            if e.startswith('ok '):
+                _, h2, c2, v2 = e.split(' ', 3)
+                d2 = bytearray(lean.unhex(h2))
+                off = pl[1] - 1
+                d2[pl[1]] = pl[2]
+                if len(h2) == len(hexs) and sum(d2[off:off + 8 * pl[2]]) % 256 == 0:
+                    pl[3] = (h2, c2, v2)
+                    continue
+            ctx.count('steered:could-not-steer(re-encoded image has another layout)')
+            pl[3], pl[4] = (hexs, cov, view), False
+        # 2. model lines
+        lines = []
+        fills = []
+        for name, pos, newlen, (h2, c2, v2), steered in plans:
+            d2 = bytearray(lean.unhex(h2))
+            d2[pos] = newlen
+            off = pos - 1
+            e = off + 8 * newlen
+            fill = None
+            if e > len(d2):
+                # device: the span ends in the unused bytes behind the image - steer through the first of them
+                n_fill = e - len(d2) + 8
+                if n_fill <= 2100:
+                    f = bytearray(b'\xff' * n_fill)
+                    f[0] = (f[0] - sum(d2[off:]) - sum(f[:e - len(d2)])) % 256
+                    fill = bytes(f)
+            fills.append(fill)
+            for kind in ('b', 'a'):
+                lines.append('parse %s %s %s' % (vv, kind, _hex(d2)))
+            lines.append(model_dev_line(vv, bytes(d2) + fill if fill is not None else device_store(d2)))
+        ms = iter(drv.ask_many(lines))
+        # 3. real code
+        seen_valid = set()
+        for (name, pos, newlen, (h2, c2, v2), steered), fill in zip(plans, fills):
+            d2 = bytearray(lean.unhex(h2))
+            if steered and h2 not in seen_valid:
+                # the steered image is an encoder output: it has to parse to its view
+                seen_valid.add(h2)
+                real = real_parse(bytes(d2), 'b')
+                ctx.case(('valid', 'b', h2))
+                ctx.count('stream:valid:steered')
+                judge_valid(ctx, label + '/steered', h2, v2, features(img), 'b', real)
+            old = d2[pos]
+            d2[pos] = newlen
+            m_b, m_a, m_dev = next(ms), next(ms), norm_model_dev(next(ms))
+            ctx.count('steered:%s:%s' % ('shortened' if newlen < old else 'lengthened',
+                                         'zero-sum' if steered else 'device-filler' if fill is not None else 'unsteered'))
+            for kind, model in (('b', m_b), ('a', m_a), ('f', m_a), ('dev', m_dev)):
+                real = real_device(bytes(d2), fill) if kind == 'dev' else real_parse(bytes(d2), kind)
+                ctx.case(('steered', kind, h2, pos, newlen, fill))
+                ctx.count('stream:steered-length:%s' % kind)
+                judge_altered(ctx, drv, h2, v2, c2, pos, newlen, kind, real, fill if kind == 'dev' else None)
+                if model != real:
+                    ctx.disagree('parse-steered', {'hex': h2, 'pos': pos, 'new': newlen, 'kind': kind,
+                                                   'fill': _hex(fill) if fill is not None and kind == 'dev' else None},
+                                 model[:300], real[:300])
+            if steered:
+                n_steered += 1
+        ctx.count('steered-images')
+        if ctx.time_left() < (22 if quick else 150):
+            ctx.notes.append('steered length-byte stream stopped early (time)')
+            break
+    ctx.extra['steered_length_values'] = n_steered
+
+
 def run(ctx):
     try:
         _run(ctx)
@@ -1072,7 +1313,8 @@ def _run(ctx):
     flags = _FLAGS = _probe()
     vv = _vv(flags)
     ctx.extra['variant'] = {'bcdBytesOnly': flags[0], 'sixStrict': flags[1], 'areaLenLax': flags[2],
-                            'devLenLax': flags[3], 'picmgTypeOnly': flags[4], 'model': _variant_name(flags)}
+                            'devLenLax': flags[3], 'picmgTypeOnly': flags[4], 'fieldsLax': flags[5],
+                            'overlapLax': flags[6], 'devOverlapLax': flags[7], 'model': _variant_name(flags)}
     rng = ctx.rng('c15')
     quick = ctx.tier == 'quick'
 
@@ -1253,6 +1495,9 @@ def _run(ctx):
             ctx.notes.append('alteration stream stopped early (time)')
             break
 
+    # ---- steered info-area length bytes: every value 1..255, zero sum over the new span where possible
+    steered_lengths(ctx, drv, vv, ctx.rng('c15-steer'), valid)
+
     # ---- sub-parser stream (tie only): mutated area/record/field bytes and random bytes
     _subparsers(ctx, drv, vv, rng, valid)
 
@@ -1370,7 +1615,7 @@ def search(ctx):
     for d in ctx.disagreements:
         if d['what'] in ('parse-valid', 'parse-valid-device'):
             d['explained_by'] = 'parse-encode violations reported by the property oracle'
-        if d['what'] == 'parse-altered' and d['model'].startswith('ok ') != d['code'].startswith('ok '):
+        if d['what'] in ('parse-altered', 'parse-steered') and d['model'].startswith('ok ') != d['code'].startswith('ok '):
             ctx.notes.append('acceptance differs between code and model on an altered image: %s' % d['case'])
 
 
@@ -1399,25 +1644,35 @@ def replay(ctx, v):
             old = data[case['pos']]
             data[case['pos']] = case['new']
             dev = case['kind'] == 'dev'
-            real = real_device(bytes(data)) if dev else real_parse(bytes(data), case['kind'])
+            fill = lean.unhex(case['fill']) if case.get('fill') else None
+            real = real_device(bytes(data), fill) if dev else real_parse(bytes(data), case['kind'])
             print('image (%d bytes), byte %d altered %02x -> %02x (coverage class %s%s), %s' % (
                 len(data), case['pos'], old, case['new'], case['cov'],
                 ': info-area length byte' if case['cov'] == '2' else '',
                 'stored in a FRU device and read with get_fru_inventory()' if dev else 'as %s' % case['kind']))
-            print('  expected  : rejected')
+            if fill is not None:
+                print('  the device stores %d more bytes behind the image: %s%s' % (len(fill), _hex(fill[:12]), '...' if len(fill) > 12 else ''))
+            print('  expected  : rejected with DecodingError')
             print('  real code : %s' % real[:300])
+            if case['cov'] != '0' and real.startswith('py:') and real != 'py:CompletionCodeError':
+                print('  (not accepted, but not a DecodingError either)')
+                return True
             if case['cov'] == '2' and real.startswith('ok '):
-                given = device_store(data) if dev else bytes(data)
+                given = (bytes(data) + fill if fill is not None else device_store(data)) if dev else bytes(data)
                 off = case['pos'] - 1
                 print('  declared length %d bytes from offset %d; the data hold %d bytes from there; sum over the declared '
                       'span = %d' % (8 * case['new'], off, len(given) - off, sum(given[off:off + 8 * case['new']]) % 256))
                 try:
-                    ok = ctx.driver('drv_c15').ask('sums ' + _hex(given)) == '1'
+                    verdict = ctx.driver('drv_c15').ask('wf ' + _hex(given))
                 except lean.LeanError:
-                    ok = False
-                if ok:
-                    print('  (declared span inside the data and zero-sum: format limit, not a violation)')
-                return not ok
+                    verdict = 'sums'
+                print('  checks of the format on the altered bytes (checksums over the declared spans / fields inside '
+                      'the areas / areas disjoint): %s' % {'ok': 'all hold', 'sums': 'a CHECKSUM fails',
+                                                           'fields': 'a FIELD or the C1h marker lies outside its area',
+                                                           'layout': 'AREAS OVERLAP'}.get(verdict, verdict))
+                if verdict == 'ok':
+                    print('  (the altered bytes are themselves a FRU image: format limit, not a violation)')
+                return verdict != 'ok'
             return real.startswith('ok ')
         if op == 'history':
             print('FRU device: %d bytes per inventory area, at most %d bytes per read; initially %s' % (
